@@ -2,7 +2,7 @@
    Directives used: ExtrOcamlBasic (bool, option, unit, prod, list, sumbool -> OCaml natives)
    and ExtrOcamlString (ascii -> char, string -> char list). nat, N, Z stay Coq datatypes. *)
 From Coq Require Import Extraction ExtrOcamlBasic ExtrOcamlString.
-From RG Require Import Base.Value Pure.CanCall Pure.Rid Pure.Pattern Pure.Lcs Pure.LcsTab Pure.ModelDiff Comp.ResSub Pure.PatternParse Pure.RidPart Pure.Status Pure.Origin Pure.HttpPath Pure.Header Comp.Throttle.
+From RG Require Import Base.Value Pure.CanCall Pure.Rid Pure.Pattern Pure.Lcs Pure.LcsTab Pure.ModelDiff Comp.ResSub Pure.PatternParse Pure.RidPart Pure.Status Pure.Origin Pure.HttpPath Pure.Header Comp.Throttle Spec.Trace Spec.Client Spec.Monitors.
 Set Extraction Optimize.
 Separate Extraction
   CanCall.can_call CanCall.entries
@@ -17,4 +17,5 @@ Separate Extraction
   Origin.matches_origins Origin.to_lower
   HttpPath.path_to_rid HttpPath.path_to_rid_action HttpPath.rid_to_path
   Header.apply_meta Header.canon
-  Throttle.step.
+  Throttle.step
+  Monitors.monitor.
